@@ -550,7 +550,7 @@ class Gen:
         # copy ctor (user-declared so that copies are registered)
         ce = self.new_eid()
         self.h.append(f"{ind}{name}(const {name} &vf_o);")
-        binit = ", ".join(f"{b}(vf_o)" for b in
+        binit = ", ".join(f"{b}(static_cast<const {b} &>(vf_o))" for b in
                           ([v for v in self.all_vbases(cls) if v not in [bb for bb, _ in bases]] +
                            [b for b, _ in bases]))
         cinit = [f"{m['name']}(vf_o.{m['name']})" for m in members_decl if m["const"] and not m["static"]]
@@ -804,6 +804,14 @@ class Gen:
         cls["seqprops"].append(dict(name=sname, qname=cls["qname"] + "::" + sname, doc=d,
                                     **{roles[i]: fns[i]["qname"] for i in range(len(fns))}))
 
+    def cxraw(self, line):
+        """a raw definition for a declaration emitted inside the library namespace"""
+        ns = getattr(self, "lib_ns", None)
+        if ns:
+            parts = ns.split("::")
+            line = " ".join(f"namespace {p} {{" for p in parts) + " " + line + " " + "}" * len(parts)
+        self.cx.append(line)
+
     def fix_body_return(self, fn, expr):
         """replace the computed result of the last emitted body by a constant expression"""
         i = len(self.cx) - 1
@@ -830,9 +838,6 @@ class Gen:
         self.h.append("namespace vf { struct PoolTag {}; }")
         self.h.append("#endif")
         self.cx += [f'#include "{name}.h"', ""]
-        if ns:
-            self.h.append(f"namespace {ns} {{")
-            self.h.append("}")
         # macros
         for i in range(r.choice([1, 2, 3])):
             mn = self.ident("MC_" + name.upper() + "_")
@@ -851,9 +856,28 @@ class Gen:
                 txt = json.dumps(v)
             self.h.append(f"#define {mn} {txt}")
             self.model["macros"].append(dict(name=mn, kind=k, text=txt, value=v))
+        self.lib_ns = ns
+        # (v2) a class and an enum inside a namespace: interrogate scans only the global scope, so these are exported
+        # only when a global signature or base list refers to them (which the later declarations may do)
+        if ns is None and getattr(self, "ext", False) and r.random() < 0.6:
+            nsn = "ns" + str(r.randrange(1000)) + ("::in" + str(r.randrange(100)) if r.random() < 0.4 else "")
+            for part in nsn.split("::"):
+                self.h.append(f"namespace {part} {{")
+            self.h.append("BEGIN_PUBLISH")
+            e = self.gen_enum(ns=nsn)
+            e["in_namespace"] = True
+            self.h.append("END_PUBLISH")
+            sv = self.size
+            self.size = min(self.size, 0.6)
+            c = self.gen_class(ns=nsn)
+            self.size = sv
+            c["in_namespace"] = True
+            for part in nsn.split("::"):
+                self.h.append("}")
+            self.model["namespace"] = nsn
         self.h.append("BEGIN_PUBLISH")
         for i in range(r.choice([1, 2])):
-            self.gen_enum()
+            self.gen_enum(ns=ns)
         self.h.append("END_PUBLISH")
         # classes
         n_classes = n_classes or max(1, int(r.choice([2, 3, 4]) * self.size))
@@ -873,12 +897,12 @@ class Gen:
                         bases = [(own[0]["qname"], True)]
                     elif i == 3:
                         bases = [(own[1]["qname"], False), (own[2]["qname"], False)]
-            own.append(self.gen_class(bases=bases))
+            own.append(self.gen_class(bases=bases, ns=ns))
         self.model["shape"] = shape
         # free functions (may use any class)
         self.h.append("BEGIN_PUBLISH")
         for i in range(max(1, int(r.choice([2, 3, 4]) * self.size))):
-            self.model["functions"].append(self.gen_function(None, "free"))
+            self.model["functions"].append(self.gen_function(None, "free", ns=ns))
         # a free overload set
         oname = self.ident("fov_")
         fk = ["i", "f", "s", "if", "none"] + (["b"] if getattr(self, "ext", False) else [])
@@ -896,7 +920,7 @@ class Gen:
                 t = {"i": T("int", c="int"), "f": T("float", c="double"), "b": T("bool"),
                      "s": T("string", ref=True) if getattr(self, "strings", True) else T("bool")}[ch]
                 ps.append(dict(name=f"o{j}_{r.randrange(100)}", type=t, default=None, default_value=None))
-            f = self.gen_function(None, "free", name=oname, params=ps)
+            f = self.gen_function(None, "free", name=oname, params=ps, ns=ns)
             f["overload_set"] = oname
             self.model["functions"].append(f)
         if getattr(self, "opaque", False):
@@ -908,17 +932,17 @@ class Gen:
                 self.h.insert(at, f"class Opq{n} : public {c['qname']} {{ public: Opq{n}(){inits} {{}} int opq_v; }};")
                 self.h.append(f"Opq{n} *opq_make_{n}();")
                 self.h.append(f"int opq_use_{n}(const Opq{n} *p);")
-                self.cx.append(f"Opq{n} *opq_make_{n}() {{ return new Opq{n}(); }}")
-                self.cx.append(f"int opq_use_{n}(const Opq{n} *p) {{ return p ? 1 : 0; }}")
+                self.cxraw(f"Opq{n} *opq_make_{n}() {{ return new Opq{n}(); }}")
+                self.cxraw(f"int opq_use_{n}(const Opq{n} *p) {{ return p ? 1 : 0; }}")
                 # an unpublished class BETWEEN two published ones
                 self.h.insert(at + 1, f"class OpqMid{n} : public {c['qname']} {{ public: OpqMid{n}(){inits.replace(c['qname'] + '(', c['qname'] + '(') } {{}} void internal_{n}(); int hidden_{n}; }};")
                 minits = self.ctor_inits(dict(bases=[dict(qname=c["qname"], virtual=False)], members=[]))
                 vb = [v for v in self.all_vbases(dict(bases=[dict(qname=c["qname"], virtual=False)]))]
                 leaf_inits = " : " + ", ".join([f"{v}(vf::PoolTag())" for v in vb] + [f"OpqMid{n}()"])
                 self.h.insert(at + 2, f"class OpqLeaf{n} : public OpqMid{n} {{ PUBLISHED: OpqLeaf{n}(); int get_leaf_{n}() const; }};")
-                self.cx.append(f"void OpqMid{n}::internal_{n}() {{}}")
-                self.cx.append(f"OpqLeaf{n}::OpqLeaf{n}(){leaf_inits} {{}}")
-                self.cx.append(f"int OpqLeaf{n}::get_leaf_{n}() const {{ return {n}; }}")
+                self.cxraw(f"void OpqMid{n}::internal_{n}() {{}}")
+                self.cxraw(f"OpqLeaf{n}::OpqLeaf{n}(){leaf_inits} {{}}")
+                self.cxraw(f"int OpqLeaf{n}::get_leaf_{n}() const {{ return {n}; }}")
         if getattr(self, "oddities", False):
             # declarations with types interrogate cannot wrap or only partly knows (exercise remove_type, forward
             # declarations); they are not part of the model (nothing is claimed about them)
@@ -947,19 +971,19 @@ class Gen:
                             "odd_ld_": "{ return x; }", "odd_wc_": "{ return c; }"}
                     for k, bd in body.items():
                         if k in line:
-                            self.cx.append(line.rstrip(";") + " " + bd)
+                            self.cxraw(line.rstrip(";") + " " + bd)
             self.model["oddities"] = n
         if getattr(self, "ordering", False):
             # overload sets whose members are equally ranked for dispatch (unrelated classes, integer widths)
             oname = self.ident("ford_")
             mk = lambda t, j: dict(name=f"o{j}_{r.randrange(100)}", type=t, default=None, default_value=None)
             for c in [c for c in own if not c.get("abstract")][:4]:
-                f = self.gen_function(None, "free", name=oname, params=[mk(T("obj", cls=c["qname"], mode="cref"), 0)])
+                f = self.gen_function(None, "free", name=oname, params=[mk(T("obj", cls=c["qname"], mode="cref"), 0)], ns=ns)
                 f["overload_set"] = oname
                 self.model["functions"].append(f)
             oname = self.ident("fint_")
             for ct in ["int", "unsigned int", "short", "long"]:
-                f = self.gen_function(None, "free", name=oname, params=[mk(T("int", c=ct), 0)])
+                f = self.gen_function(None, "free", name=oname, params=[mk(T("int", c=ct), 0)], ns=ns)
                 f["overload_set"] = oname
                 self.model["functions"].append(f)
         self.h.append("END_PUBLISH")
